@@ -8,7 +8,8 @@ stress / strain pair the law returns satisfies the defining equation "with the R
 strictly increasing in the stress, so it inherits oddness and monotonicity in the load from the root.
 
 (b) `Model/Notch.lean: bisect` is the halving loop of `SeegerBeste._root_in_bracket`
-(repo commit b50f603) without its stopping rule and without the final linear interpolation
+(repo commit b50f603; stopping rule - interval below 5 % of `tol + rtol·|root|` - and analytic end values for the
+interpolation since repo commit 8e3c607) without its stopping rule and without the final linear interpolation
 (which is clipped to the last interval and therefore obeys the same bound): the function is evaluated at interior points only,
 never at the bracket ends (where the coded quotient form takes its `np.divide` fall-back values).  `bisect_encloses_root` is
 about any function with the sign structure `f x < 0 ↔ x < r` INSIDE the interval; `seegerBeste_bisection_converges` /
@@ -184,7 +185,7 @@ theorem seegerBeste_backward_bisection_converges (h : m.Adm) (hKp : 1 < m.Kp) {s
     exact this
 
 /-- **The end value the repaired solver uses at `σ = L`** (`SeegerBeste._stress_implicit_limit`,
-tools/fixes/C06-seegerbeste-bisection-accuracy.diff): the coded quotient form tends to `ε(L) / (K_p·e*(L)) − 1` for
+repo commit 8e3c607): the coded quotient form tends to `ε(L) / (K_p·e*(L)) − 1` for
 `σ → L⁻` (the middle term tends to 1, `seegerBeste_middleTerm_limit`), and this limit is `≥ 0`: the sign the bisection
 assumes above the root.  (The VALUE of the coded function at `σ = L` is `ε/0 − 1`, not this limit.) -/
 theorem seegerBeste_implicit_limit_at_load (h : m.Adm) (hKp : 1 < m.Kp) {L : ℝ} (hL : 0 < L) :
